@@ -278,6 +278,38 @@ func (x *vc) applyContract(fr *frame, st *state, fc *funcContract, callee *ssa.F
 		_ = o
 		x.assume(st.guard, g)
 	}
+	// `atcall callee#k requires e`: a caller-side obligation on the arguments of its k-th call to callee, written
+	// over the callee's parameter names and the caller's own variables (used for "which sub-parse with which
+	// binding power / lexer mode" clauses that a postcondition cannot see)
+	if fr.top && x.topFC != nil && len(x.topFC.atcalls) > 0 {
+		ord := x.callOrd[what]
+		if x.callOrd == nil {
+			x.callOrd = map[string]int{}
+		}
+		x.callOrd[what] = ord + 1
+		for _, ac := range x.topFC.atcalls {
+			if ac.callee != what || ac.ordinal != ord {
+				continue
+			}
+			cenv2 := x.contractEnv(fr, st, nil)
+			for k, v := range env.vars {
+				if _, shadow := cenv2.vars[k]; !shadow || k == "self" {
+					cenv2.vars[k] = v
+				}
+			}
+			// callee parameter names win over caller names of the same spelling only when prefixed: callee.<name>
+			for k, v := range env.vars {
+				cenv2.vars["callee_"+k] = v
+			}
+			g := x.evalBool(cenv2, ac.cl.expr)
+			detail := fmt.Sprintf("%s#%d", what, ord)
+			if ac.cl.tag != "" {
+				detail += "." + ac.cl.tag
+			}
+			x.oblige(st, "callarg", detail, g, pos, "argument clause for this call: "+ac.cl.text, false)
+			ac.seen = true
+		}
+	}
 	if fc.panics != "" {
 		declared := ""
 		if x.topFC != nil {
@@ -325,6 +357,9 @@ func (x *vc) applyContract(fr *frame, st *state, fc *funcContract, callee *ssa.F
 			x.assume("true", app(">=", nr, st.nextRef))
 			st.nextRef = nr
 		}
+		if mod.all && x.topFC != nil && len(x.topFC.preserves) > 0 {
+			x.preserveObjects(fr, pre, st)
+		}
 	}
 	if fc.noreturn {
 		st.guard = "false"
@@ -343,6 +378,43 @@ func (x *vc) applyContract(fr *frame, st *state, fc *funcContract, callee *ssa.F
 		out()
 	}
 	return res
+}
+
+// preserveObjects: the function under verification declares `preserves p`: calls that may write anywhere in the
+// heap (assigns heap) do not write the object p points to nor the backing arrays of its slice fields. This is
+// the tree-shape (acyclicity) assumption of recursive walks, stated per function and reported as an assumption.
+func (x *vc) preserveObjects(fr *frame, pre, st *state) {
+	for _, name := range x.topFC.preserves {
+		var pv Val
+		found := false
+		for _, prm := range x.top.Params {
+			if prm.Name() == name {
+				if f0 := x.topFrame; f0 != nil {
+					pv, found = f0.vals[prm], true
+				}
+			}
+		}
+		if !found || pv.T == "" {
+			continue
+		}
+		pt, ok := pv.Typ.Underlying().(*types.Pointer)
+		if !ok || !isStructObj(pt.Elem()) {
+			continue
+		}
+		s := pt.Elem().Underlying().(*types.Struct)
+		for i := 0; i < s.NumFields(); i++ {
+			an, as, ft := x.fieldArr(st, pt.Elem(), i)
+			oldA := x.heapArr(pre, an, as)
+			newA := x.heapArr(st, an, as)
+			x.assume(st.guard, eq(app("select", newA, pv.T), app("select", oldA, pv.T)))
+			if sl, ok := ft.Underlying().(*types.Slice); ok {
+				en, es := x.elemArr(st, sl.Elem())
+				arr := app("sl_arr", app("select", oldA, pv.T))
+				x.assume(st.guard, eq(app("select", x.heapArr(st, en, es), arr), app("select", x.heapArr(pre, en, es), arr)))
+			}
+		}
+	}
+	x.trusted["tree shape: a function declaring `preserves p` assumes that callees which may write anywhere do not write *p or the backing arrays of its slice fields (the syntax tree is acyclic; children do not reach their parent)"] = true
 }
 
 func (x *vc) bindResults(env *cenv, sig *types.Signature, res Val) {
@@ -481,7 +553,23 @@ func (x *vc) builtin(fr *frame, st *state, b *ssa.Builtin, cc *ssa.CallCommon, a
 		st.heap[d] = x.define(d, x.heapSorts[d], ite(eq(m.T, "0"), st.heap[d], app("store", st.heap[d], m.T, app("store", app("select", st.heap[d], m.T), args[1].T, "false"))))
 		return Val{}
 	case "recover":
-		return x.freshVal("recovered", resT, st)
+		r := x.freshVal("recovered", resT, st)
+		// in a deferred closure of a function that declares `recovers T`: every panic raised in that function's
+		// dynamic extent carries a T (this is what the panic-type / panic-propagation obligations of the
+		// functions it calls establish), so recover yields nil or a non-nil T
+		if parent := x.top.Parent(); parent != nil {
+			if pfc := x.p.cons.get(fnKey(parent)); pfc != nil && pfc.recovers != "" {
+				if t := x.lookupType(parent.Pkg.Pkg, pfc.recovers); t != nil {
+					isT := eq(app("itag", r.T), smtInt(int64(x.srt.typeID(t))))
+					if strings.HasPrefix(pfc.recovers, "*") {
+						isT = and(isT, not(eq(app("ival", r.T), "0")))
+					}
+					x.assume(st.guard, or(eq(r.T, "(mkiface 0 0)"), isT))
+					x.trusted["recover() in "+fnKey(x.top)+": the recovered value is nil or a "+pfc.recovers+" (meta-argument: all panics in the dynamic extent of "+fnKey(parent)+" are shown to carry that type)"] = true
+				}
+			}
+		}
+		return r
 	case "print", "println":
 		return Val{}
 	case "min", "max":
